@@ -315,8 +315,12 @@ static std::string handle_res(const std::vector<std::string> &t)
     std::string sa, sb;
     if (!parse_attrs(t[2], aa) || !vh::from_hex(t[3], sa) || !parse_attrs(t[4], ba) || !vh::from_hex(t[5], sb))
       return "bad-op";
-    res::Resource a = Maker::Make(aa, sa);
-    res::Resource b = Maker::Make(ba, sb);
+    // an operand without attributes and without schema URL is the shared Resource::GetEmpty() object itself: Merge must
+    // leave it as it is (it is printed below, and it is the operand of every later such case of this process)
+    res::Resource a_own = Maker::Make(aa, sa);
+    res::Resource b_own = Maker::Make(ba, sb);
+    const res::Resource &a = (aa.empty() && sa.empty()) ? res::Resource::GetEmpty() : a_own;
+    const res::Resource &b = (ba.empty() && sb.empty()) ? res::Resource::GetEmpty() : b_own;
     aa.clear();
     ba.clear();
     std::string out;
